@@ -182,6 +182,10 @@ def apply_contract(ex, key, self_obj, args, kw, line):
     for i, r in enumerate(c.get("requires", [])):
         g = ex.to_bool(eval_spec_expr(ex, r, env))
         ex.oblige("pre", f"{name}:requires[{i}]", g, line, note=r)
+    ghost = {}
+    for gname, gexpr in c.get("ghost", {}).items():
+        ghost[gname] = eval_spec_expr(ex, gexpr, {**env, **ghost})
+    env.update(ghost)
     # frame: arguments the callee may mutate must be fresh here
     for p in c.get("mutates", []):
         v = bound.get(p)
@@ -208,6 +212,7 @@ def apply_contract(ex, key, self_obj, args, kw, line):
         for attr, expr in c.get("self_effects", {}).items():
             self_obj.attrs[attr] = eval_spec_expr(ex, expr, env)
     env = contract_env(ex, c, bound, self_obj, old_self, result)
+    env.update(ghost)
     for e_ in c.get("ensures", []):
         ex.assume(ex.to_bool(eval_spec_expr(ex, e_, env)))
     if "result_is" in c:
@@ -358,6 +363,7 @@ def generic_visit(ex, obj, cc, x, line):
         env["result"] = r
         for e_ in cc.get("generic_ensures", []):
             ex.assume(ex.to_bool(eval_spec_expr(ex, e_, env)))
+        ex._inplace_generic = True
         return r
     if base == "NodeVisitor":
         for attr, expr in cc.get("generic_effects", {}).items():
